@@ -450,6 +450,12 @@ func (p *eparser) postfix(x Expr) Expr {
 			}
 			// qualified call: pkg.f(args) -> ECall with dotted name
 			if p.isOp("(") {
+				if sel, ok := x.(*ESel); ok {
+					// pkg.Type.method(args): flatten to a dotted name
+					if id2, ok2 := sel.X.(*EIdent); ok2 {
+						x = &EIdent{id2.Name + "." + sel.Name}
+					}
+				}
 				if id, ok := x.(*EIdent); ok {
 					p.next()
 					var args []Expr
